@@ -548,6 +548,14 @@ theorem step_sim {cfg : Config} {s : St} {st : Last × List Acc} (h : Sim cfg s 
       (fun s2 th => by
         obtain ⟨a, b, _, d⟩ := schedThread_spec s2 th t (sampleStack s2.cfg km ip chain)
         exact ⟨a, b, fun u hu => by rw [d] at hu; simp at hu⟩)
+  | otherEvent pid tid t km ip chain =>
+    -- a sample of another event: the marker item is not a recorded sample (`synth`), the thread is untouched
+    simp only [step, accStep]
+    exact step_cs_sim h pid tid (fun s2 th => otherEventThread s2 th pid tid t (sampleStack s2.cfg km ip chain))
+      (fun s2 th => ⟨rfl, rfl, fun u hu => by
+        simp only [otherEventThread, List.mem_singleton] at hu
+        subst hu
+        exact ⟨⟨rfl, rfl, rfl⟩, rfl⟩⟩)
 
 theorem foldl_sim {cfg : Config} (rs : List Rec) {s : St} {st : Last × List Acc} (h : Sim cfg s st) :
     Sim cfg (rs.foldl step s) (rs.foldl accStep st) := by
